@@ -20,4 +20,17 @@ def handleMemo (op : String) (j : Json) : Option Json :=
     some <| Json.mkObj [("answers", jList Json.bool (runV (initSt listing) qs))]
   | _ => none
 
+/-- op "canloadrun": {"present": [names the backend can load], "listing": true|false, "names": [...]} -> the answers of a whole run of
+    `memoize_store.can_load` calls and the names for which the wrapped backend was asked (Jug.Memo.canLoadRun) -/
+def handleCanLoadRun (op : String) (j : Json) : Option Json :=
+  match op with
+  | "canloadrun" =>
+    let nats (k : String) : List Nat := (getArr j k).toList.filterMap fun x => x.getNat?.toOption
+    let present := nats "present"
+    let listing : Bool := match j.getObjVal? "listing" with | .ok (.bool b) => b | _ => false
+    let k : KSt := { listing := if listing then some present else none, cache := [] }
+    let r := canLoadRun (fun n => present.contains n) k (nats "names")
+    some <| Json.mkObj [("answers", jList Json.bool r.1), ("asked", jList (fun (n : Nat) => toJson n) r.2)]
+  | _ => none
+
 end Jug.Drv
